@@ -107,16 +107,16 @@ def getStrList (kvs : Fields) (k : String) : Except Err (List String) :=
   | some (.arr xs) => strElems xs
   | some _ => .error .syntax
 
+/-- a `json.RawMessage` holding `null` is stored as the empty message (`none`) -/
+def rawElem : Json → Option Json
+  | .null => none
+  | v => some v
+
 /-- `json.RawMessage` field: absent or `null` gives the empty message (`none`). -/
 def getRaw (kvs : Fields) (k : String) : Option Json :=
   match lookup kvs k with
   | none => none
-  | some .null => none
-  | some v => some v
-
-def rawElem : Json → Option Json
-  | .null => none
-  | v => some v
+  | some v => rawElem v
 
 /-- `[]json.RawMessage` field. -/
 def getRawList (kvs : Fields) (k : String) : Except Err (List (Option Json)) :=
